@@ -49,3 +49,26 @@ def quiet():
     finally:
         sys.stdout.close()
         sys.stdout = old
+
+
+# ---- legs of a correspondence that must not take the whole run down -------------------------------------------------
+# A check's run(ctx) consists of a main evaluation and of additional legs (the device-on-kernel replays, the network replay).  A leg
+# that raises on a changed library (its parser meets output it has never seen) would otherwise lose the failing inputs the main
+# evaluation has already found: the exception is recorded here instead, the leg returns a neutral result, and the framework adds
+# one correspondence disagreement per crashed leg (so that the check still reports, with `no-failing-input-found` if nothing else did).
+LEG_CRASHES = []
+
+
+def guarded_leg(default=None):
+    def deco(fn):
+        import functools, traceback
+
+        @functools.wraps(fn)
+        def w(*a, **k):
+            try:
+                return fn(*a, **k)
+            except Exception:
+                LEG_CRASHES.append({'leg': fn.__name__, 'traceback': traceback.format_exc()[-1800:]})
+                return default() if callable(default) else default
+        return w
+    return deco
